@@ -285,9 +285,17 @@ def main(mod):
         return rc
 
     batches = mod.plan(args.tier, args.seed)
-    for b in batches:
+    for i, b in enumerate(batches):
         b.setdefault("tier", args.tier)
         b.setdefault("seed", args.seed)
+        # configurations a user can legitimately run the code in: the CLI's DEBUG log level (-l d) and an optimised interpreter
+        # (python -O).  A share of the batches runs under each, so that code guarded by the log level or written as an assert
+        # is exercised too.  (Monitors and oracles do not depend on either.)
+        if not getattr(mod, "NO_ENV_VARIATION", False):
+            if i % 8 == 2:
+                b.setdefault("env", {})["VERIF_LOGLEVEL"] = "DEBUG"
+            elif i % 8 == 5:
+                b.setdefault("env", {})["PYTHONOPTIMIZE"] = "1"
     # wall-clock watchdog per batch: generous (its firing is 'inconclusive', never a verdict), 4x in the thorough tier
     wd = getattr(mod, "TIMEOUT", 900) * (4 if args.tier == "thorough" else 1)
     for b in batches:
